@@ -436,6 +436,7 @@ class RunResult:
         self.wall = 0.0
         self.timed_out = False
         self.yielded: List[Any] = []
+        self.exc: Optional[BaseException] = None  # the raised exception object itself (a caller may keep it, with its traceback, as long as it likes)
 
 
 def read_events(path: str) -> List[Dict[str, Any]]:
@@ -543,6 +544,7 @@ def _run_session_once(session: Any, mode: str, api_data: Any, extenders: Any, st
         except BaseException as e:  # noqa
             box["error"] = "".join(str(a) for a in e.args) if e.args else repr(e)
             box["error_type"] = type(e).__name__
+            box["exc"] = e
 
     t0 = time.time()
     th = threading.Thread(target=target, daemon=True)
@@ -577,6 +579,7 @@ def _run_session_once(session: Any, mode: str, api_data: Any, extenders: Any, st
     rr.yielded = box.get("yielded", [])
     rr.error = box.get("error")
     rr.error_type = box.get("error_type")
+    rr.exc = box.get("exc")
     time.sleep(0.002)
     rr.events = read_events(path)
     try:
